@@ -10,7 +10,7 @@ import networkx as nx
 
 from ..loader import AnalysisError, ekey
 from .anchors import anchors
-from .common import mentions, short
+from .common import mentions, short, guards_of, param_keys_in
 from .selection import rule_selection
 
 
@@ -86,6 +86,67 @@ def rule_exception_transparency(eng, rep, rule="C08-2.user-exceptions-propagate"
     rep.require_count(rule, "try statements inside functions", ntry, 5)
 
 
+def rule_logging_code_is_exception_neutral(eng, rep, rule="C08-3.logging-only-code-cannot-raise-on-non-finite-data"):
+    """'solve terminates without raising' must not depend on whether logging / diagnostics are switched on.  scipy.linalg routines validate their input
+    (check_finite=True) and raise ValueError on inf/NaN, numpy's do not.  Rule: a scipy.linalg call that runs only under a logging option (dominating guard over
+    a `logging.*` parameter, do_logging, print_progress or verbose) must pass check_finite=False or sit in a try that handles ValueError."""
+    n = nlog = 0
+    for ci in list(eng.res.calls.values()):
+        if not (ci.kind == "LIB" and ci.libname and ci.libname.startswith("scipy.linalg.")):
+            continue
+        n += 1
+        fi = ci.caller
+        if fi.is_lambda:
+            continue
+        cfg = eng.cfg(fi)
+        try:
+            cn = cfg.cfg_node(ci.node)
+        except AnalysisError:
+            continue
+        opt = None
+        for (_b, a) in guards_of(cfg, cn):
+            if a.op != "truth":
+                continue
+            keys = [k for k in param_keys_in(eng, a.lhs) if k.startswith("logging.")]
+            if keys:
+                opt = "params('%s')" % keys[0]
+            elif isinstance(a.lhs, ast.Name) and a.lhs.id in ("do_logging", "print_progress", "verbose"):
+                opt = a.lhs.id
+            elif isinstance(a.lhs, ast.Attribute) and a.lhs.attr in ("do_logging", "print_progress", "verbose"):
+                opt = ekey(a.lhs)
+        if opt is None:
+            continue
+        nlog += 1
+        site = eng.where(fi, ci.node)
+        unchecked = any(kw.arg == "check_finite" and isinstance(kw.value, ast.Constant) and kw.value.value is False for kw in ci.node.keywords)
+        tr = _enclosing_try_handling(eng, ci.node, ("ValueError", "Exception"))
+        if unchecked or tr:
+            rep.ok(rule, site, "`%s` runs only under %s and cannot raise on non-finite input (%s)" % (short(ci.node, 40), opt, "check_finite=False" if unchecked else "enclosing try handles ValueError"))
+        else:
+            rep.bad(rule, site, "%s|raising-call-in-logging-code|%s" % (fi.fid, short(ci.node, 30)),
+                    "`%s` runs only when %s is on and raises ValueError('array must not contain infs or NaNs') for a non-finite argument: with that option a bad objective value "
+                    "makes solve raise although the same run terminates normally without it" % (short(ci.node, 40), opt))
+    rep.require_count(rule, "scipy.linalg call sites inspected", n, 10)
+    rep.extra["scipy_linalg_calls_in_logging_only_code"] = nlog
+
+
+def _enclosing_try_handling(eng, node, names):
+    cur = node
+    while cur is not None:
+        par = eng.prog.parent.get(id(cur))
+        if isinstance(par, ast.Try) and cur in par.body:
+            for h in par.handlers:
+                if h.type is None:
+                    return True
+                hs = [x.id for x in ast.walk(h.type) if isinstance(x, ast.Name)] + [x.attr for x in ast.walk(h.type) if isinstance(x, ast.Attribute)]
+                if set(hs) & set(names):
+                    return True
+        if isinstance(par, (ast.FunctionDef, ast.Lambda)):
+            return False
+        cur = par
+    return False
+
+
 def run(eng, rep):
     rep.explain("C08: decision tables of every selection guard over {None, NaN, lo<hi} (T6) -- a NaN candidate never replaces a finite holder, a finite "
                 "candidate replaces a NaN holder, an empty slot is filled, the guard never raises; arg-min over stored objectives is NaN-aware; no try "
@@ -95,4 +156,7 @@ def run(eng, rep):
     rep.assumptions.append("budget and bound guarantees (C01/C02 rules) never consult the value returned by objfun, hence hold under every fault sequence")
     rule_selection(eng, rep, "C08-1.selection-is-NaN-total", {"NAN_CAND", "NAN_HOLDER", "NONE_HOLDER"}, "C08")
     rule_argmin_nan_aware(eng, rep)
+    from .c17 import rule_reselection_guard
+    rule_reselection_guard(eng, rep, rule="C08-1d.NaN-incumbent-is-replaced-on-re-sampling")
     rule_exception_transparency(eng, rep)
+    rule_logging_code_is_exception_neutral(eng, rep)
